@@ -95,4 +95,12 @@ CHECKS = {
         "reaches an error state (missing pending options, use before the constructor finished, stale lazy-loader assertion).",
    note="Explicit model of ~15 event kinds (vlib/bmc.py); adequacy is checked by a one-thread sanity twin and by replaying every sat "
         "schedule on the real classes. Outside: registry lazy import, record caches, CPython internals below attribute access."),
+ "C18": dict(engine="E1-zshadow", category="other", design_ref="DESIGN.md §4 C18",
+   technique="path exploration of the real disable/enable/identify/verify code over symbolic text + z3 entailment of the disable/enable algebra",
+   text="For None, empty and every original text of up to 4 (thorough 6) arbitrary code points, and for real hash templates inside "
+        "contexts with unix_disabled at several list positions, z3 shows on every path that the disabled entry is recognised, never "
+        "verifies (incl. empty password and the entry itself), is stable under repeated disabling, and that enable() returns exactly "
+        "what was embedded or raises ValueError; verify(None) costs exactly one dummy verification.",
+   note="Trusted: z3; str/bytes isinstance and the marker set in passlib.handlers.misc extended to symbolic text. One open known "
+        "finding (mysql41 '*' prefix vs unix_disabled marker) is listed in known_findings.txt."),
 }
